@@ -6,13 +6,14 @@ From Cyecca Require Import Base.Ops Base.Tactics.
 Import ListNotations.
 Local Open Scope R_scope.
 
-(* an SSA equation not (yet) selected by a slice *)
-Definition Eqn (a b : R) : Prop := a = b.
+(* Eqn (Base.Ops): an SSA equation not (yet) selected by a slice *)
 Lemma Eqn_intro a b : a = b -> Eqn a b.  Proof. exact (fun H => H). Qed.
 Lemma Eqn_elim a b : Eqn a b -> a = b.  Proof. exact (fun H => H). Qed.
 
 (* introduce the let-chain of a _wp definition as local definitions (no zeta reduction) *)
 Ltac wp_intro f := cbv delta [f]; cbv beta; intros.
+(* the equational form  forall v, Eqn v e -> ... -> P [outs]  of large units: no zeta-conversion at Qed *)
+Ltac wpe_intro f := cbv delta [f]; cbv beta; intros.
 
 (* local definitions -> wrapped equations *)
 Ltac all_eqns :=
